@@ -282,4 +282,70 @@ theorem rangeLoopW_flip (i1 i2 sb eb : Nat) (hsb : sb < 64) (heb : eb < 64) (h12
   have := rangeLoopW_eq wholeFlip_mask bitLoop_maskFlip i1 i2 sb eb hsb heb h12 hse (i2 + 1 - i1) d s i1 (Nat.le_refl _) (by omega)
   simpa using this
 
+/-! ### the exported range operations, word at a time -/
+
+def runRangeW (app : W → Int → W → W × Int) (b : T) (lo hi : Nat) : T :=
+  { data := (rangeLoopW app (lo / 64) (hi / 64) (lo % 64) (hi % 64) b.data b.set (lo / 64) (hi / 64 + 1 - lo / 64)).1,
+    set := (rangeLoopW app (lo / 64) (hi / 64) (lo % 64) (hi % 64) b.data b.set (lo / 64) (hi / 64 + 1 - lo / 64)).2 }
+
+theorem runRangeW_eq {whole : W → Int → W × Int} {act : W → Int → Nat → W × Int} {app : W → Int → W → W × Int}
+    (hwhole : ∀ w s, whole w s = app w s (BitVec.allOnes 64))
+    (hbits : ∀ w s j n, 0 < n → j + n ≤ 64 → bitLoop act w s j n = app w s (rangeMask j (j + n - 1)))
+    (b : T) (lo hi : Nat) (h : lo ≤ hi) :
+    runRangeW app b lo hi = runRange whole act b lo hi (wordIdx lo) (wordIdx hi) := by
+  have hl : lo % 64 < 64 := Nat.mod_lt _ (by decide)
+  have hh : hi % 64 < 64 := Nat.mod_lt _ (by decide)
+  have := rangeLoopW_eq hwhole hbits (lo / 64) (hi / 64) (lo % 64) (hi % 64) hl hh (Nat.div_le_div_right h)
+    (fun e => by omega) (hi / 64 + 1 - lo / 64) b.data b.set (lo / 64) (Nat.le_refl _)
+    (by have := Nat.div_le_div_right (c := 64) h; omega)
+  simp only [if_true] at this
+  unfold runRangeW runRange
+  simp only [bitIndexForMask_wordMask, wordIdx_eq]
+  rw [this]
+
+def setRangeW (b : T) (start end_ : Nat) : T :=
+  let se := if start > end_ then (end_, start) else (start, end_)
+  runRangeW maskSet (ensureCapacity b (wordIdx se.2 + 1)) se.1 se.2
+
+def flipRangeW (b : T) (start end_ : Nat) : T :=
+  let se := if start > end_ then (end_, start) else (start, end_)
+  runRangeW maskFlip (ensureCapacity b (wordIdx se.2 + 1)) se.1 se.2
+
+def clearRangeW (b : T) (start end_ : Nat) : T :=
+  let se := if start > end_ then (end_, start) else (start, end_)
+  let len := b.data.length
+  if wordIdx se.1 + 1 > len then b
+  else runRangeW maskClear b se.1 (if wordIdx se.2 + 1 > len then len * 64 - 1 else se.2)
+
+theorem setRangeW_eq (b : T) (s e : Nat) : setRangeW b s e = setRange b s e := by
+  unfold setRangeW setRange
+  simp only
+  generalize hse : (if s > e then (e, s) else (s, e)) = se
+  have hle : se.1 ≤ se.2 := by rw [← hse]; split <;> simp <;> omega
+  exact runRangeW_eq wholeSet_mask bitLoop_maskSet _ _ _ hle
+
+theorem flipRangeW_eq (b : T) (s e : Nat) : flipRangeW b s e = flipRange b s e := by
+  unfold flipRangeW flipRange
+  simp only
+  generalize hse : (if s > e then (e, s) else (s, e)) = se
+  have hle : se.1 ≤ se.2 := by rw [← hse]; split <;> simp <;> omega
+  exact runRangeW_eq wholeFlip_mask bitLoop_maskFlip _ _ _ hle
+
+theorem clearRangeW_eq (b : T) (s e : Nat) : clearRangeW b s e = clearRange b s e := by
+  unfold clearRangeW clearRange
+  simp only
+  generalize hse : (if s > e then (e, s) else (s, e)) = se
+  have hle : se.1 ≤ se.2 := by rw [← hse]; split <;> simp <;> omega
+  split
+  · rfl
+  · rename_i h1
+    rw [wordIdx_eq] at h1
+    split
+    · rename_i h2
+      simp only [shl_eq]
+      rw [runRangeW_eq wholeClear_mask bitLoop_maskClear b se.1 (b.data.length * 64 - 1) (by omega)]
+      have : wordIdx (b.data.length * 64 - 1) = b.data.length - 1 := by rw [wordIdx_eq]; omega
+      rw [this]
+    · exact runRangeW_eq wholeClear_mask bitLoop_maskClear _ _ _ hle
+
 end BS
